@@ -282,13 +282,12 @@ LEN_NAMES = ("size", "len", "outlen", "inlen", "mlen", "clen", "adlen", "count",
 PAIR_NAMES = {"out": "outlen", "in": "inlen", "m": "mlen", "c": "clen", "ad": "adlen"}
 
 
-def rule_output_range(rep, m, f, decl, cname):
+def rule_output_range(rep, m, f, decl, cname, rid="C12.D6", why=""):
     """D6: a constant-extent access relative to a buffer cursor must fit in
     the remaining length: if the guards bound the remaining length to at most
     H bytes at that point, an access of bytes [c, c+w) with c + w > H reads or
     writes past the documented range for every feasible length."""
     from .rules_c07 import _base_and_offset
-    rid = "C12.D6"
     params = decl["params"]
     if len(params) != len(f.params):
         return
@@ -341,8 +340,8 @@ def rule_output_range(rep, m, f, decl, cname):
             rep.violation(rid, "%s:%s+%d..%d" % (f.name, params[k]["name"], off, off + w), i.where(),
                           "%s %s %d byte(s) at offset %d of the current position of '%s', but at this point the guards "
                           "bound the remaining %s to at most %d byte(s): the access goes past the documented range for "
-                          "every feasible length" % (f.name, "stores" if i.op == "store" else "loads", w, off,
-                                                     params[k]["name"], params[lk[0]]["name"], hi), config=cname)
+                          "every feasible length%s" % (f.name, "stores" if i.op == "store" else "loads", w, off,
+                                                       params[k]["name"], params[lk[0]]["name"], hi, why), config=cname)
         else:
             rep.instance(rid, 1, {"config": cname, "function": f.name, "buffer": params[k]["name"],
                                   "access": [off, off + w], "remaining_at_most": hi})
@@ -697,7 +696,7 @@ def _predicate_accepts_short(pf, k):
     return None
 
 
-def control_d6(rep):
+def control_d6(rep, rid="C12.D6"):
     """positive control: the fixture's out-of-range store must be found"""
     import os
     from . import report as _r
@@ -713,8 +712,8 @@ def control_d6(rep):
     decl = {"params": [{"name": "output", "ty": "uint8_t *"}, {"name": "input", "ty": "const uint8_t *"},
                        {"name": "size", "ty": "unsigned int"}]}
     probe = _r.Report("C12", "quick")
-    rule_output_range(probe, m, f, decl, "fixture")
-    if not any(v["rule"] == "C12.D6" for v in probe.violations):
-        rep.broken.append("C12.D6 positive control: the fixture's out-of-range store was not reported")
+    rule_output_range(probe, m, f, decl, "fixture", rid=rid)
+    if not any(v["rule"] == rid for v in probe.violations):
+        rep.broken.append("%s positive control: the fixture's out-of-range store was not reported" % rid)
     else:
-        rep.instance("C12.D6", 1, {"positive_control": "fixtures/c12_overrun.c flagged"})
+        rep.instance(rid, 1, {"positive_control": "fixtures/c12_overrun.c flagged"})
